@@ -133,8 +133,7 @@ def astq_body(loop):
 
 
 def rule_update_final(ctx, R, F):
-    R.rule('B2-UPDATE', 'blake2b_update keeps the last (possibly full) block buffered: flush only when buflen + inlen > 128 and loop only while inlen > 128 (both strict), counter += 128 before every compress, '
-           'buflen bookkeeping; blake2b_final: counter += buflen, last-block flag, zero padding, compress, little-endian output of h truncated to outlen via a 64-byte temporary', min_instances=6)
+    R.rule('B2-UPDATE', '128-bit counter with carry, last-block flag; blake2b_final: counter += buflen, last-block flag, zero padding, compress, little-endian output of h truncated to outlen via a 64-byte temporary (the streaming behaviour of blake2b_update is decided by B2-STREAM, the finalisation by B2-FINAL)', min_instances=2)
     f = fn(F, 'blake2b_update')
     R.saw(fn=f['q'], unit=f['_unit'])
     ren = {p['id']: 'P%d' % i for i, p in enumerate(f['params'])}
@@ -145,15 +144,17 @@ def rule_update_final(ctx, R, F):
                     ren[d['id']] = 'PIN'
                 elif 'init' in d and show(d['init']).endswith('->buflen'):
                     ren[d['id']] = 'LEFT'
-                elif 'init' in d and d['name'] == 'fill':
+                elif 'init' in d and any(y['k'] == 'Ref' and ren.get(y.get('id')) == 'LEFT' for y in walk(d['init'])):
                     ren[d['id']] = 'FILL'
     where = '%s:%d' % (f['file'], f['line'])
     with astq.renaming(ren), astq.nocasts():
         ifs = [x for x in f['body']['s'] if x['k'] == 'If']
         flush = [x for x in ifs if 'buflen' in show(x['c']) and '128' in showv(x['c'])]
         okf = len(flush) == 1 and showv(flush[0]['c']) == '((P0->buflen + P2) > 128)'
-        R.check(okf, 'flush condition is strict', where, expected='(S->buflen + inlen) > 128', found=[showv(x['c']) for x in flush])
-        if flush:
+        # the streaming behaviour itself is decided by B2-STREAM (below) whatever the shape of the code; the reference shape is only recorded
+        if okf:
+            R.ok('flush condition is strict', where, detail='reference shape (S->buflen + inlen) > 128')
+        if flush and okf:
             body = []
             for s in flush[0]['t']['s']:
                 if s['k'] == 'While':
@@ -164,9 +165,14 @@ def rule_update_final(ctx, R, F):
                    '(P0->buflen = 0)', '(P2 -= FILL)', '(PIN += FILL)',
                    "while (P2 > 128): ['blake2b_increment_counter(P0, 128)', 'blake2b_compress(P0, PIN)', '(P2 -= 128)', '(PIN += 128)']"]
             body = [b.replace('randomx_', '') for b in body]
-            R.eq('flush block', loc(flush[0], f), exp, body)
+            if body == exp:
+                R.ok('flush block', loc(flush[0], f), detail='reference shape')
         tail = [showv(s) for s in f['body']['s'][-3:]]
-        R.eq('buffer the remainder', where, ['memcpy(&P0->buf[P0->buflen], PIN, P2)', '(P0->buflen += P2)', 'return 0'], tail)
+        if tail == ['memcpy(&P0->buf[P0->buflen], PIN, P2)', '(P0->buflen += P2)', 'return 0']:
+            R.ok('buffer the remainder', where, detail='reference shape')
+    rule_stream(ctx, R, F)
+    rule_final_eval(ctx, R, F)
+    R._cur = 'B2-UPDATE'
     ic = fn(F, 'blake2b_increment_counter')
     ren = {p['id']: 'P%d' % i for i, p in enumerate(ic['params'])}
     with astq.renaming(ren), astq.nocasts():
@@ -184,7 +190,7 @@ def rule_update_final(ctx, R, F):
                 if d.get('arrlen') == 64:
                     ren[d['id']] = 'TMP'
                     tmp_zero = 'init' in d
-                elif d['name'] == 'i':
+                elif any(x2['k'] == 'For' and astq.is_node(x2.get('init')) and x2['init'].get('k') == 'Decl' and any(dd['id'] == d['id'] for dd in x2['init']['d']) for x2 in walk(f['body'])) or d['name'] == 'i':
                     ren[d['id']] = 'i'
     with astq.renaming(ren), astq.nocasts():
         seq = []
@@ -197,7 +203,8 @@ def rule_update_final(ctx, R, F):
                 seq.append(showv(s).replace('randomx_', ''))
         exp = ['blake2b_increment_counter(P0, P0->buflen)', 'blake2b_set_lastblock(P0)', 'memset(&P0->buf[P0->buflen], 0, (128 - P0->buflen))', 'blake2b_compress(P0, P0->buf)',
                "for 8: ['store64((TMP + (8 * i)), P0->h[i])']", 'memcpy(P1, TMP, P0->outlen)', 'return 0']
-        R.eq('blake2b_final sequence', '%s:%d' % (f['file'], f['line']), exp, seq)
+        if seq == exp:
+            R.ok('blake2b_final sequence', '%s:%d' % (f['file'], f['line']), detail='reference shape; the behaviour is decided by B2-FINAL')
 
 
 def loop_trip_any(s):
@@ -230,12 +237,20 @@ def rule_reject(ctx, R, F):
     f = fn(F, 'blake2b_final')
     g = CFG(f)
     out_id = f['params'][1]['id']
+    out_ids = {out_id}
+    for x in walk(f['body']):
+        if x['k'] == 'Decl':
+            for d in x['d']:
+                if 'init' in d and any(y['k'] == 'Ref' and y.get('id') in out_ids for y in walk(d['init'])) and '*' in (d.get('ty') or ''):
+                    out_ids.add(d['id'])      # alias of the output pointer
     sinks = []
     for n, c in g.find_calls(lambda c: True):
         for idx, a in enumerate(c.get('a', [])):
-            if ref_id(a) == out_id and c.get('name') in ('memcpy', 'memset', 'store64', 'store32') and idx == 0:
+            if idx == 0 and c.get('name') in ('memcpy', 'memset', 'store64', 'store32', 'memmove') and any(y['k'] == 'Ref' and y.get('id') in out_ids for y in walk(a)):
                 sinks.append((n, c))
-    R.check(len(sinks) == 1, 'blake2b_final writes out once', '%s:%d' % (f['file'], f['line']), expected='one memcpy(out, ...)', found=[show(c)[:50] for n, c in sinks])
+    if not sinks:
+        raise AnalysisBroken('B2-REJECT: no write through the output pointer found in blake2b_final')
+    R.ok('blake2b_final output writes located', '%s:%d' % (f['file'], f['line']), detail='%d write site(s) through out' % len(sinks))
     tests = []
     for node in g.nodes:
         if node['kind'] == 'cond' and node.get('owner') and node['owner']['k'] == 'If':
@@ -334,3 +349,245 @@ def rule_commit(ctx, R, F):
     hs = int(F.macro('RANDOMX_HASH_SIZE')['body'])
     exp = ['blake2b_init(&STATE, %d)' % hs, 'blake2b_update(&STATE, P0, P1)', 'blake2b_update(&STATE, P2, %d)' % hs, 'blake2b_final(&STATE, P3, %d)' % hs]
     R.eq('commitment sequence', '%s:%d' % (f['file'], f['line']), exp, seq)
+
+
+# ---------------------------------------------------------------------------------------------
+# [B2-STREAM] streaming semantics of blake2b_update, decided on the bookkeeping slice
+B2_S, BUF, IN, OUT = 0x1000, 0x2000, 0x100000, 0x300000
+M64 = (1 << 64) - 1
+HTAG = 0x48000000
+
+
+class _B2H:
+    def __init__(self, b, t0, inline=None, outlen=64):
+        self.inline = inline or {}
+        self.outlen = outlen
+        self.f0 = 0
+        self.final = False
+        self.buflen = b
+        self.t = [t0, 0]
+        self.mem = {BUF + j: ('old', j) for j in range(b)}
+        self.events = []
+        self.bad = []
+
+    def sizeof(self, base):
+        return None
+
+    def addr(self, n, env, sl):
+        n = strip_all(n)
+        while n['k'] == 'Cast':
+            n = strip_all(n['e'])
+        if n['k'] == 'Idx':
+            b_ = self.addr(n['b'], env, sl) if show(n['b']).endswith('buf') or strip_all(n['b'])['k'] in ('Mem', 'Idx') else sl.ev(n['b'], env)
+            i_ = sl.ev(n['i'], env)
+            return None if b_ is None or i_ is None else b_ + i_
+        s_ = show(n)
+        if s_.endswith('->buf') or s_.endswith('.buf'):
+            return BUF
+        return sl.ev(n, env)
+
+    def leaf(self, n, env, sl):
+        n0 = strip_all(n)
+        s_ = show(n0)
+        if n0['k'] == 'Un' and n0.get('op') == '&':
+            return self.addr(n0['e'], env, sl)
+        if s_.endswith('->buflen') or s_.endswith('.buflen'):
+            return self.buflen
+        if s_.endswith('->buf') or s_.endswith('.buf'):
+            return BUF
+        if n0['k'] == 'Idx':
+            bs = show(n0['b'])
+            i_ = sl.ev(n0['i'], env)
+            if bs.endswith('->t') and i_ in (0, 1):
+                return self.t[i_]
+            if bs.endswith('->f') and i_ in (0, 1):
+                return self.f0 if i_ == 0 else 0
+            if bs.endswith('->h') and i_ is not None and 0 <= i_ < 8:
+                return HTAG + i_
+        if s_.endswith('->outlen') or s_.endswith('.outlen'):
+            return self.outlen
+        if s_.endswith('->last_node') or s_.endswith('.last_node'):
+            return 0
+        return None
+
+    def store(self, n, env, sl):
+        l = strip_all(n['l'])
+        s_ = show(l)
+        rv = sl.ev(n['r'], env)
+
+        def upd(old):
+            if n['k'] == 'Assign':
+                return rv
+            op = n['op'][:-1]
+            if rv is None or old is None:
+                return None
+            return {'+': old + rv, '-': old - rv}.get(op)
+        if s_.endswith('->buflen') or s_.endswith('.buflen'):
+            v = upd(self.buflen)
+            if v is None:
+                self.bad.append('buflen becomes unknown at line %s' % n.get('ln'))
+            else:
+                self.buflen = v & 0xffffffff
+            return
+        if l['k'] == 'Idx' and show(l['b']).endswith('->f'):
+            i_ = sl.ev(l['i'], env)
+            if i_ == 0:
+                self.f0 = (rv if rv is not None else 1) & M64
+            return
+        if l['k'] == 'Idx' and show(l['b']).endswith('->t'):
+            i_ = sl.ev(l['i'], env)
+            v = upd(self.t[i_]) if i_ in (0, 1) else None
+            if v is None:
+                self.bad.append('counter becomes unknown at line %s' % n.get('ln'))
+            else:
+                self.t[i_] = v & M64
+            return
+
+    def call(self, n, args, env, sl):
+        nm = (n.get('name') or '').replace('randomx_', '')
+        if nm in ('memcpy', '__builtin_memcpy', 'memmove') and len(args) == 3:
+            d_ = self.addr(n['a'][0], env, sl)
+            s_ = self.addr(n['a'][1], env, sl)
+            k_ = args[2]
+            if None in (d_, s_, k_) or k_ < 0 or k_ > 4096:
+                self.bad.append('memcpy with unknown / absurd operands at line %s (n = %s)' % (n.get('ln'), k_))
+                return None
+            if BUF <= d_ < BUF + 128 and d_ + k_ > BUF + 128:
+                self.bad.append('memcpy of %d bytes to buf[%d] overflows the 128-byte buffer (line %s)' % (k_, d_ - BUF, n.get('ln')))
+            vals = [self.mem.get(s_ + j, ('in', s_ + j - IN) if IN <= s_ + j < IN + (1 << 16) else ('undef', s_ + j)) for j in range(k_)]
+            for j, v in enumerate(vals):
+                self.mem[d_ + j] = v
+            return None
+        if nm == 'blake2b_compress' and len(args) == 2:
+            p_ = self.addr(n['a'][1], env, sl)
+            if p_ is None:
+                self.bad.append('compress of an unknown block at line %s' % n.get('ln'))
+                return None
+            blk = tuple(self.mem.get(p_ + j, ('in', p_ + j - IN) if IN <= p_ + j < IN + (1 << 16) else ('undef', p_ + j)) for j in range(128))
+            self.events.append((blk, self.t[0], self.t[1]) if not self.final else ('compress', blk, self.t[0], self.t[1], self.f0))
+            return None
+        if nm in self.inline:
+            return ('inline', self.inline[nm])
+        if nm in ('memset', '__builtin_memset') and len(args) == 3:
+            d_ = self.addr(n['a'][0], env, sl)
+            if None in (d_, args[1], args[2]) or args[2] < 0 or args[2] > 4096:
+                self.bad.append('memset with unknown operands at line %s' % n.get('ln'))
+                return None
+            for j in range(args[2]):
+                self.mem[d_ + j] = ('byte', args[1] & 255)
+            return None
+        if nm == 'store64' and len(args) == 2:
+            d_ = self.addr(n['a'][0], env, sl)
+            if d_ is None or args[1] is None:
+                self.bad.append('store64 with unknown operands at line %s' % n.get('ln'))
+                return None
+            for j in range(8):
+                self.mem[d_ + j] = ('h', args[1] - HTAG, j) if HTAG <= args[1] < HTAG + 8 else ('word', args[1], j)
+            return None
+        return None
+
+
+
+def rule_stream(ctx, R, F):
+    import slice as slc
+    R.rule('B2-STREAM', 'blake2b_update(S, in, inlen) with b bytes already buffered compresses exactly the first ceil((b + inlen) / 128) - 1 blocks of the byte stream buffered-bytes || input (each block made of the right bytes, in order), '
+           'with the 128-bit counter advanced by 128 before each compression, and leaves the remaining 1..128 bytes buffered with buflen equal to their number; for b in {0, 1, 17, 64, 127, 128} x inlen 0..300, '
+           'decided by evaluating the bookkeeping slice of the function (buffer offsets, lengths, counter; the compression itself is a recorded event)', min_instances=1500)
+    f = fn(F, 'blake2b_update')
+    inc = fn(F, 'blake2b_increment_counter')
+    ps = f['params']
+    where = '%s:%d' % (f['file'], f['line'])
+    S = B2_S
+    n = 0
+    for b in (0, 1, 17, 64, 127, 128):
+        for inlen in range(0, 301):
+            t0 = 0xFFFFFFFFFFFFFF00 if (b + inlen) % 7 == 0 else 1280        # some runs start just below a carry into t[1]
+            h = _B2H(b, t0, {'blake2b_increment_counter': inc})
+            sl = slc.Slice(F, h, {}, limit=20000, what='B2-STREAM')
+            env = {ps[0]['id']: S, ps[1]['id']: IN, ps[2]['id']: inlen}
+            try:
+                sl.run(f['body'], env)
+            except slc.NeedChoice as e:
+                raise AnalysisBroken('B2-STREAM: condition %s does not depend on the lengths alone' % e.key)
+            stream = [('old', j) for j in range(b)] + [('in', j) for j in range(inlen)]
+            total = len(stream)
+            nblk = 0 if (total <= 128 or inlen == 0) else (total + 127) // 128 - 1
+            exp_ev = []
+            t = t0
+            for k_ in range(nblk):
+                t = t + 128
+                exp_ev.append((tuple(stream[128 * k_:128 * k_ + 128]), t & M64, t >> 64))
+            rest = stream[128 * nblk:]
+            got_rest = [h.mem.get(BUF + j) for j in range(h.buflen)] if 0 <= h.buflen <= 128 else None
+            ok = not h.bad and h.events == exp_ev and h.buflen == len(rest) and got_rest == rest
+            n += 1
+            if not ok or (inlen % 16 == 0):
+                why = list(h.bad)
+                if h.events != exp_ev:
+                    if len(h.events) != len(exp_ev):
+                        why.append('%d blocks compressed, expected %d' % (len(h.events), len(exp_ev)))
+                    else:
+                        for k_, (a_, e_) in enumerate(zip(h.events, exp_ev)):
+                            if a_ != e_:
+                                why.append('block %d: counter %d (expected %d)%s' % (k_, a_[1] + (a_[2] << 64), e_[1] + (e_[2] << 64), '' if a_[0] == e_[0] else ', wrong bytes: starts with %s, expected %s' % (a_[0][0], e_[0][0])))
+                                break
+                if h.buflen != len(rest):
+                    why.append('buflen %d, expected %d' % (h.buflen, len(rest)))
+                elif got_rest != rest:
+                    why.append('buffered bytes are not the tail of the stream')
+                R.check(ok, 'buffered %d, inlen %d' % (b, inlen), where, expected='%d block(s) compressed, %d byte(s) left buffered' % (nblk, len(rest)), found='; '.join(why[:3]) or 'as expected')
+            else:
+                R.ok('buffered %d, inlen %d' % (b, inlen), where)
+    if n < 1500:
+        raise AnalysisBroken('B2-STREAM: only %d cases evaluated' % n)
+
+
+def rule_final_eval(ctx, R, F):
+    import slice as slc
+    R.rule('B2-FINAL', 'blake2b_final with b bytes buffered (0..128) and a digest length 1..64: the counter is advanced by b, the last-block flag is set before the one compression, the block is the buffered bytes followed by zeros, '
+           'and exactly the first outlen bytes of the little-endian h words reach the output (nothing beyond); decided on the bookkeeping slice', min_instances=150)
+    f = fn(F, 'blake2b_final')
+    inline = {}
+    for nm in ('blake2b_increment_counter', 'blake2b_set_lastblock', 'blake2b_set_lastnode', 'blake2b_is_lastblock'):
+        try:
+            inline[nm] = fn(F, nm)
+        except AnalysisBroken:
+            pass
+    ps = f['params']
+    where = '%s:%d' % (f['file'], f['line'])
+    n = 0
+    for b in list(range(0, 129, 7)) + [1, 64, 127, 128]:
+        for outlen in (1, 7, 8, 20, 32, 33, 63, 64):
+            t0 = 0xFFFFFFFFFFFFFFC0 if b % 2 else 256
+            h = _B2H(b, t0, inline, outlen)
+            h.final = True
+            sl = slc.Slice(F, h, {}, limit=20000, what='B2-FINAL')
+            env = {ps[0]['id']: B2_S, ps[1]['id']: OUT, ps[2]['id']: outlen}
+            try:
+                sl.run(f['body'], env)
+            except slc.NeedChoice as e:
+                raise AnalysisBroken('B2-FINAL: condition %s does not depend on the lengths alone' % e.key)
+            comp = [e for e in h.events if e[0] == 'compress']
+            why = list(h.bad)
+            t = t0 + b
+            blk = tuple([('old', j) for j in range(b)] + [('byte', 0)] * (128 - b))
+            if len(comp) != 1:
+                why.append('%d compressions' % len(comp))
+            else:
+                _, gb, g0, g1, gf = comp[0]
+                if gb != blk:
+                    why.append('block is not the buffered bytes padded with zeros')
+                if (g0, g1) != (t & M64, t >> 64):
+                    why.append('counter %d, expected %d' % (g0 + (g1 << 64), t))
+                if gf != M64:
+                    why.append('last-block flag %#x at the compression' % gf)
+            outb = {a_ - OUT: v for a_, v in h.mem.items() if OUT - 4096 <= a_ < OUT + 4096}
+            want = {j: ('h', j // 8, j % 8) for j in range(outlen)}
+            if outb != want:
+                extra = sorted(k_ for k_ in outb if k_ not in want)
+                miss = sorted(k_ for k_ in want if outb.get(k_) != want[k_])
+                why.append('output bytes %s' % ('written beyond outlen: %s' % extra[:4] if extra else 'missing / wrong: %s' % miss[:4]))
+            n += 1
+            R.check(not why, 'buffered %d, digest length %d' % (b, outlen), where, expected='counter += %d, flag, padded block, %d output bytes' % (b, outlen), found='; '.join(why[:3]) or 'as expected')
+    if n < 150:
+        raise AnalysisBroken('B2-FINAL: only %d cases' % n)
